@@ -69,7 +69,7 @@ def determinism(props: list[str], n: int) -> int:
 
 
 def run_check_on(src: str, prop: str, runs: int | None = None) -> tuple[int, str]:
-    env = dict(os.environ, VERIF_REPO_SRC=src)
+    env = dict(os.environ, VERIF_REPO_SRC=src, VERIF_REPLAY_DIR=os.path.join(os.path.dirname(src), "replays"))
     cmd = [PY, os.path.join(HERE, "check.py"), prop, "--no-evidence"]
     if runs:
         cmd += ["--runs", str(runs)]
